@@ -102,6 +102,24 @@ class ThreadStub:
             def start(a, k, node):
                 self.started = True
                 self.run.events.append(("start", self, node))
+                if self.run.schedule == "late":
+                    return None
+                self._body(node)
+            return PyFunc(start)
+        if name == "join":
+            def join(a, k, node):
+                if self.run.schedule == "late" and self.started \
+                        and not self.joined:
+                    # the latest moment the worker's body can run
+                    self._body(node)
+                self.joined = True
+                self.run.events.append(("join", self, node))
+            return PyFunc(join)
+        raise Unsupported(f"thread attribute {name}")
+
+    def _body(self, node):
+        if True:
+            if True:
                 prev = self.run.current_thread
                 self.run.current_thread = self.tid
                 try:
@@ -113,13 +131,6 @@ class ThreadStub:
                     self.run.events.append(("thread-raised", self, e.what))
                 finally:
                     self.run.current_thread = prev
-            return PyFunc(start)
-        if name == "join":
-            def join(a, k, node):
-                self.joined = True
-                self.run.events.append(("join", self, node))
-            return PyFunc(join)
-        raise Unsupported(f"thread attribute {name}")
 
 
 class BasisList:
@@ -205,8 +216,10 @@ class Block:
 class Run:
     def __init__(self, model: Model, cls_name: str, method: str,
                  sizes: Dict[str, int], nthreads: int = 0,
-                 pass_v: bool = True, extra_args=()):
+                 pass_v: bool = True, extra_args=(),
+                 schedule: str = "eager"):
         self.model = model
+        self.schedule = schedule
         self.bufs: List[Buf] = []
         self.threads: List[ThreadStub] = []
         self.events: List[tuple] = []
